@@ -189,7 +189,24 @@ class Ref:
             return self.subst(s, o, depth + 1)
         return value
 
+    def note_walk(self, key, o):
+        """Label lookups that walk into a non-container (known finding K4)."""
+        cur = o
+        for seg in key.split("."):
+            if isinstance(cur, dict):
+                if seg not in cur:
+                    return
+                cur = cur[seg]
+            elif isinstance(cur, list):
+                if not seg.lstrip("-").isdigit() or not (-len(cur) <= int(seg) < len(cur)):
+                    return
+                cur = cur[int(seg)]
+            else:
+                self.st.labels.add("scalar-section-walk")
+                return
+
     def get_ref(self, key, o):
+        self.note_walk(key, o)
         v = dotted_get(o, key)
         self.st.reads[key] = v is not ABSENT
         self.st.read_log.append((key, v is not ABSENT))
@@ -225,6 +242,7 @@ class Ref:
 
     def opt_value(self, n, o):
         key = n["key"]
+        self.note_walk(key, o)
         raw = dotted_get(o, key)
         self.st.reads[key] = raw is not ABSENT
         self.st.read_log.append((key, raw is not ABSENT))
